@@ -108,8 +108,12 @@ def check_instruction(meta, interp, name, root, V, cov):
             else:
                 for i, (g, w) in enumerate(zip(final, want)):
                     posts.append((f"item {i}", item_cond(ctx, g, w, s, v, 16 + K)))
-            for label, cond in (sp["relation"](ctx, final, s) if "relation" in sp else []):
-                posts.append((label, cond))
+            if "relation" in sp:
+                import inspect
+                rel_fn = sp["relation"]
+                args_ = (ctx, final, s, res.events) if len(inspect.signature(rel_fn).parameters) >= 4 else (ctx, final, s)
+                for label, cond in rel_fn(*args_):
+                    posts.append((label, cond))
             posts.append(("succeeds only outside the documented failing case", z3.Not(fail)))
         else:
             err = res.value[1]
